@@ -533,4 +533,133 @@ theorem matchFile_star (U : Nat → Bool) (name : Bytes) (tags : Tags) (hs : tag
   rw [h1, fileStar_eq, hs]
   simp
 
+/-! ### the leading block, characterised (sanity of the specification itself) -/
+
+theorem leadingBlock_prefix : ∀ (ls : List Bytes), leadingBlock ls <+: ls := by
+  intro ls
+  induction ls with
+  | nil => simp [leadingBlock]
+  | cons l ls ih =>
+    unfold leadingBlock
+    split
+    · exact List.prefix_cons_inj l |>.mpr ih
+    · split
+      · split
+        · exact List.nil_prefix
+        · next hne => 
+          exact List.prefix_cons_inj l |>.mpr ih
+      · exact List.nil_prefix
+
+theorem leadingBlock_lines : ∀ (ls : List Bytes), ∀ l ∈ leadingBlock ls, isBlank l = true ∨ isComment l = true := by
+  intro ls
+  induction ls with
+  | nil => simp [leadingBlock]
+  | cons x xs ih =>
+    intro l hl
+    unfold leadingBlock at hl
+    split at hl
+    · next hb =>
+      rcases List.mem_cons.mp hl with rfl | h
+      · exact Or.inl hb
+      · exact ih l h
+    · split at hl
+      · next hc =>
+        split at hl
+        · simp at hl
+        · rcases List.mem_cons.mp hl with rfl | h
+          · exact Or.inr hc
+          · exact ih l h
+      · simp at hl
+
+theorem leadingBlock_ends_blank : ∀ (ls : List Bytes) (l : Bytes), (leadingBlock ls).getLast? = some l →
+    isBlank l = true := by
+  intro ls
+  induction ls with
+  | nil => intro l h; simp [leadingBlock] at h
+  | cons x xs ih =>
+    intro l h
+    unfold leadingBlock at h
+    split at h
+    · next hb =>
+      cases hx : leadingBlock xs with
+      | nil => rw [hx] at h; simp at h; rw [← h]; exact hb
+      | cons y ys =>
+        rw [hx, List.getLast?_cons_cons] at h
+        exact ih l (by rw [hx]; exact h)
+    · split at h
+      · split at h
+        · simp at h
+        · next hne =>
+          cases hx : leadingBlock xs with
+          | nil => exact absurd hx hne
+          | cons y ys =>
+            rw [hx, List.getLast?_cons_cons] at h
+            exact ih l (by rw [hx]; exact h)
+      · simp at h
+
+/-- maximality: any prefix of blank / comment lines that ends in a blank line lies within the block. -/
+theorem leadingBlock_maximal : ∀ (ls : List Bytes) (k : Nat), k ≤ ls.length →
+    (∀ l ∈ ls.take k, isBlank l = true ∨ isComment l = true) →
+    (∃ l, (ls.take k).getLast? = some l ∧ isBlank l = true) → k ≤ (leadingBlock ls).length := by
+  intro ls
+  induction ls with
+  | nil => intro k hk _ _; simp at hk; subst hk; simp
+  | cons x xs ih =>
+    intro k hk hall hlast
+    cases k with
+    | zero => omega
+    | succ k =>
+      simp only [List.take_succ_cons] at hall hlast
+      have hx := hall x (by simp)
+      have hk' : k ≤ xs.length := by simpa using hk
+      have hall' : ∀ l ∈ xs.take k, isBlank l = true ∨ isComment l = true :=
+        fun l hl => hall l (List.mem_cons_of_mem _ hl)
+      unfold leadingBlock
+      by_cases hb : isBlank x = true
+      · simp only [hb, if_true, List.length_cons]
+        cases k with
+        | zero => omega
+        | succ k' =>
+          have : ∃ l, (xs.take (k' + 1)).getLast? = some l ∧ isBlank l = true := by
+            obtain ⟨l, h1, h2⟩ := hlast
+            cases hxs : xs.take (k' + 1) with
+            | nil =>
+              cases xs with
+              | nil => simp at hk'
+              | cons y ys => simp at hxs
+            | cons y ys =>
+              rw [hxs, List.getLast?_cons_cons] at h1
+              exact ⟨l, h1, h2⟩
+          have := ih (k' + 1) hk' hall' this
+          omega
+      · have hc : isComment x = true := by
+          rcases hx with h | h
+          · exact absurd h hb
+          · exact h
+        simp only [hb, Bool.false_eq_true, if_false, hc, if_true]
+        cases k with
+        | zero =>
+          obtain ⟨l, h1, h2⟩ := hlast
+          simp at h1
+          rw [← h1] at h2
+          exact absurd h2 hb
+        | succ k' =>
+          have hl' : ∃ l, (xs.take (k' + 1)).getLast? = some l ∧ isBlank l = true := by
+            obtain ⟨l, h1, h2⟩ := hlast
+            cases hxs : xs.take (k' + 1) with
+            | nil =>
+              cases xs with
+              | nil => simp at hk'
+              | cons y ys => simp at hxs
+            | cons y ys =>
+              rw [hxs, List.getLast?_cons_cons] at h1
+              exact ⟨l, h1, h2⟩
+          have hle := ih (k' + 1) hk' hall' hl'
+          cases hlb : leadingBlock xs with
+          | nil => rw [hlb] at hle; simp at hle
+          | cons y ys =>
+            rw [hlb] at hle
+            simp only [List.length_cons] at hle ⊢
+            omega
+
 end GIV.C19
